@@ -179,7 +179,9 @@ def check_layout(run, A, fn, sites):
                 continue
             n += 1
             enumerated = None
-            if '?' in got:
+            if '?' in got or (len(got) > 1 and 'caller' in got):
+                # not one of the recognised spellings, or a reordering that is skipped on some path (`if (sensor_dim, time_dim) != (-2, -1): transpose`): whether the skipped
+                # path is the one where the reordering is the identity is decided by folding, not by the spelling
                 # not one of the recognised spellings: fold the axis arithmetic for every rank 2..4 and every admissible (sensor_dim, source_dim, time_dim) (pbv/inteval.py)
                 enumerated = _layout_by_enumeration(obs_side if pname == 'observation' else raw, pname, want)
             if enumerated is not None and enumerated[0] is True:
@@ -190,8 +192,9 @@ def check_layout(run, A, fn, sites):
                               f'({want[0]}, {want[1]}): the letters pair the wrong axes', construct=f'R-AXIS::{Q}::layout::{pname}')
             elif got == {want}:
                 run.ok('R-AXIS', f'PSD {st["sub"]!r}: {pname} operand is in layout (..., {want[0]}, {want[1]})', s.loc, '')
-            elif '?' in got:
-                run.unresolved('R-AXIS', f'PSD {st["sub"]!r}: {pname} operand is in layout (..., {want[0]}, {want[1]})', s.loc, f'the way from `{pname}` to operand {i} is not recognised')
+            elif '?' in got or (len(got) > 1 and 'caller' in got):
+                run.unresolved('R-AXIS', f'PSD {st["sub"]!r}: {pname} operand is in layout (..., {want[0]}, {want[1]})', s.loc, f'the way from `{pname}` to operand {i} is not recognised'
+                               + (' (the reordering is skipped on some path, and the condition could not be folded)' if 'caller' in got else ''))
             else:
                 desc = ', '.join('the caller\'s layout (no reordering)' if x == 'caller' else f'(..., {x[0]}, {x[1]})' for x in sorted(got, key=str))
                 run.violation('R-AXIS', f'PSD {st["sub"]!r}: {pname} operand is in layout (..., {want[0]}, {want[1]})', s.loc,
@@ -300,6 +303,18 @@ def check(run):
                 ok = ax is not None and axis_param(ax) == 'time_dim' and kd is True and flv is not NOVAL and isinstance(flv, (int, float)) and flv > 0 \
                     and call_arg(sm, 0) is e.term.args[1]
         run.check(ok, 'R-AXIS', 'PSD: mask normalised by its floored sum over the time axis', fn.loc(e.node), '', why, construct=f'R-AXIS::{Q}::mask-normalisation')
+        if ok:
+            # `time_dim` is an index into the CALLER's layout: the mask that is summed over it must not have been reordered yet
+            lay = layout_of(call_arg(sm, 0), 'mask')
+            moved = sorted(x for x in lay if isinstance(x, tuple))
+            if moved:
+                run.violation('R-AXIS', 'PSD: the mask is normalised over time_dim in the caller\'s layout', fn.loc(e.node),
+                              f'the mask reaches the normalisation already reordered to (..., {moved[0][0]}, {moved[0][1]}) on some path, and is summed over `time_dim`, which counts in the '
+                              f'caller\'s layout: for any non-default time_dim another axis is normalised', construct=f'R-AXIS::{Q}::mask-normalisation-layout')
+            elif lay == {'caller'}:
+                run.ok('R-AXIS', 'PSD: the mask is normalised over time_dim in the caller\'s layout', fn.loc(e.node), '')
+            else:
+                run.unresolved('R-AXIS', 'PSD: the mask is normalised over time_dim in the caller\'s layout', fn.loc(e.node), 'the way from `mask` to the normalised array is not recognised')
         guard_ok = guarded_by(e.term, 'normalize')
         run.check(guard_ok, 'R-AXIS', 'PSD: mask normalisation only under `normalize`', fn.loc(e.node), '', 'the mask is normalised regardless of the normalize option',
                   construct=f'R-AXIS::{Q}::normalize-guard')
